@@ -19,6 +19,9 @@
 #include <sys/resource.h>
 #include <unistd.h>
 #include <csignal>
+#include <geos/operation/linemerge/LineMerger.h>
+#include <geos/geom/Geometry.h>
+#include <geos/geom/LineString.h>
 
 using namespace vh;
 
@@ -159,6 +162,26 @@ static CE runMerge(bool directed, const LineSet& ls) {
     return r;
 }
 
+// one LineMerger object asked twice (add part, merge, add the rest, merge again) against a fresh merger on all the lines:
+// the merged set is a function of the lines added so far, not of what was asked before
+static CE runMergeReuse(const LineSet& ls, size_t split) {
+    { LASTIN = "RU M " + std::to_string(split) + " " + tokSet(ls); } if (DRY) { CE r; r.c = LASTIN; r.e = "dry"; return r; }
+    using geos::operation::linemerge::LineMerger; using geos::geom::Geometry; using geos::geom::LineString;
+    std::vector<GEOSGeometry*> gs; for (auto& l : ls) gs.push_back(mkLine(l));
+    auto canon = [](std::vector<std::unique_ptr<LineString>> v) { std::vector<std::string> o; for (auto& l : v) { l->normalize(); o.push_back(l->toString()); } std::sort(o.begin(), o.end()); std::string t; for (auto& x : o) t += x + ";"; return t; };
+    std::string inc, fresh, first;
+    { LineMerger m; for (size_t i = 0; i < split && i < gs.size(); i++) m.add(reinterpret_cast<const Geometry*>(gs[i]));
+      first = canon(m.getMergedLineStrings());
+      for (size_t i = split; i < gs.size(); i++) m.add(reinterpret_cast<const Geometry*>(gs[i]));
+      inc = canon(m.getMergedLineStrings()); }
+    { LineMerger m; for (auto g : gs) m.add(reinterpret_cast<const Geometry*>(g)); fresh = canon(m.getMergedLineStrings()); }
+    std::string again; { LineMerger m; for (auto g : gs) m.add(reinterpret_cast<const Geometry*>(g)); (void) m.getMergedLineStrings(); again = canon(m.getMergedLineStrings()); }
+    for (auto g : gs) GEOSGeom_destroy_r(H, g);
+    CE r; r.c = LASTIN;
+    r.e = (inc == fresh && again == fresh) ? "consistent" : (inc != fresh ? "inconsistent incremental=" + inc + " fresh=" + fresh : "inconsistent second-call=" + again + " first-call=" + fresh);
+    return r;
+}
+
 static CE runNode(const std::string& mode, const LineSet& ls) {
     { LASTIN = "N " + mode + " " + tokSet(ls); } if (DRY) { CE r; r.c = LASTIN; r.e = "dry"; return r; }
     GEOSGeometry* g = mkLineal(ls, true);
@@ -219,7 +242,7 @@ static CE runShared(const LineSet& a, bool ma, const LineSet& b, bool mb) {
 
 // ---------------------------------------------------------------- generators
 struct Gen {
-    Rng& r; Out& out;
+    Rng& r; Out& out; bool reuseMode = false;
     Gen(Rng& rr, Out& o) : r(rr), out(o) {}
 
     // ---- lines for linear referencing
@@ -333,6 +356,7 @@ struct Gen {
         // shuffle
         for (size_t i = ls.size(); i > 1; i--) std::swap(ls[i - 1], ls[r.below(i)]);
         if (ls.empty()) ls.push_back(edgeLine(node(0), node(1), uniq));
+        if (reuseMode) return runMergeReuse(ls, r.below(ls.size() + 1));
         CE c = runMerge(directed, ls);
         if (!DRY) { size_t bar = c.c.find(" | "); if (bar != std::string::npos) { long nout = std::atol(c.c.c_str() + bar + 3); out.count("merge_in_lines", (long) ls.size()); out.count("merge_out_lines", nout);
             if (nout < (long) ls.size()) out.count("merge_case_something_merged"); } }
@@ -507,6 +531,7 @@ int main(int argc, char** argv) {
         else if (stream == "oracle") c = g.oracle(false);
         else if (stream == "oracle_multi") c = g.oracle(true);
         else if (stream == "merge") c = g.merge();
+        else if (stream == "reuse") { g.reuseMode = true; c = g.merge(); }
         else if (stream == "node") c = g.node(false);
         else if (stream == "node_fp") c = g.node(true);
         else if (stream == "polygonize") c = g.polygonize();
